@@ -23,6 +23,24 @@ pub enum SatOp {
 #[derive(Clone, Debug, Serialize, Deserialize)]
 pub struct SatCase {
     pub ops: Vec<SatOp>,
+    /// variable v of the abstract sequence is the solver's variable (v-1)*stride+1, so that large
+    /// and far-apart variable numbers are exercised while the brute-force oracle stays small
+    #[serde(default)]
+    pub stride: u8,
+}
+
+fn mapv(v: usize, stride: u8) -> usize {
+    let s = stride.max(1) as usize;
+    (v - 1) * s + 1
+}
+
+fn mapl(l: i8, stride: u8) -> isize {
+    let v = mapv(l.unsigned_abs() as usize, stride) as isize;
+    if l > 0 {
+        v
+    } else {
+        -v
+    }
 }
 
 pub struct SatObj;
@@ -99,10 +117,11 @@ fn run_backend(name: &str, backend: &Backend, case: &SatCase, rec: &mut Rec, fak
     let mut declared: usize = 0; // max(used in clauses, reserved)
     let mut verdicts = vec![];
     let sigp = format!("C15/{}", name);
+    let stride = case.stride;
     for (k, op) in case.ops.iter().enumerate() {
         match op {
             SatOp::Add(c) => {
-                let cl: Vec<Literal> = c.iter().map(|l| Literal::from(*l as isize)).collect();
+                let cl: Vec<Literal> = c.iter().map(|l| Literal::from(mapl(*l, stride))).collect();
                 guard(|| s.add_clause(cl)).map_err(|p| Failure::new(format!("{}/add_clause-panic", sigp), p))?;
                 for l in c {
                     declared = declared.max(l.unsigned_abs() as usize);
@@ -110,12 +129,15 @@ fn run_backend(name: &str, backend: &Backend, case: &SatCase, rec: &mut Rec, fak
                 clauses.push(c.clone());
             }
             SatOp::Reserve(r) => {
-                guard(|| s.reserve(*r as usize)).map_err(|p| Failure::new(format!("{}/reserve-panic", sigp), p))?;
-                declared = declared.max(*r as usize);
+                let rr = *r as usize;
+                let r = &(if *r == 0 { 0 } else { mapv(*r as usize, stride) });
+                guard(|| s.reserve(*r)).map_err(|p| Failure::new(format!("{}/reserve-panic", sigp), p))?;
+                // in abstract variable numbers: reserving mapv(r) declares the abstract variables 1..=r
+                declared = declared.max(rr);
             }
             SatOp::Solve(assumptions) => {
                 rec.eval();
-                let al: Vec<Literal> = assumptions.iter().map(|l| Literal::from(*l as isize)).collect();
+                let al: Vec<Literal> = assumptions.iter().map(|l| Literal::from(mapl(*l, stride))).collect();
                 let r = guard(|| if al.is_empty() { s.solve() } else { s.solve_under_assumptions(&al) });
                 let r = match r {
                     Ok(r) => r,
@@ -162,7 +184,7 @@ fn run_backend(name: &str, backend: &Backend, case: &SatCase, rec: &mut Rec, fak
                         let mut need: Vec<usize> = (1..=declared).collect();
                         need.extend(assumptions.iter().map(|l| l.unsigned_abs() as usize));
                         for v in need {
-                            match guard(|| m.value_of(v)) {
+                            match guard(|| m.value_of(mapv(v, stride))) {
                                 Ok(x) => vals[v] = x,
                                 Err(p) => {
                                     return Err(Failure::new(
@@ -193,7 +215,7 @@ fn run_backend(name: &str, backend: &Backend, case: &SatCase, rec: &mut Rec, fak
                     }
                 }
                 let nv = guard(|| s.n_vars()).map_err(|p| Failure::new(format!("{}/n_vars-panic", sigp), p))?;
-                if nv < declared {
+                if declared > 0 && nv < mapv(declared, stride) {
                     return Err(Failure::new(
                         format!("{}/n_vars-below-declared", sigp),
                         format!("n_vars {} declared {}", nv, declared),
@@ -217,18 +239,18 @@ impl Prop for SatObj {
         "C15"
     }
     fn rule(&self) -> String {
-        "Sequences of add_clause (0-4 literals over 12 variables, repeated/complementary literals, the empty clause), reserve(k), solve and solve_under_assumptions (0-4 literals over 14 variables, i.e. also never-seen and only-reserved ones, possibly contradictory), optionally after a structured prefix (pigeonhole 3/2, implication chain), run on CadicalSolver, ExternalSatSolver(fake_sat, strict DIMACS validation) and ExternalSatSolver(kissat -q) when installed. Every verdict is compared with brute force over the accumulated clauses and that call's assumptions; models must satisfy every clause and assumption by definite values and be queryable for every declared/assumed variable. Non-trivial: >=2 solve calls with a clause added in between and a call whose assumptions flip the verdict; distinct = operation sequence.".into()
+        "Sequences of add_clause (0-4 literals over 12 abstract variables, mapped to solver variables (v-1)*stride+1 with stride in {1,3,16,63,64,65,128} so that variable numbers up to ~1800 and all residues occur, repeated/complementary literals, the empty clause), reserve(k), solve and solve_under_assumptions (0-4 literals over 14 variables, i.e. also never-seen and only-reserved ones, possibly contradictory), optionally after a structured prefix (pigeonhole 3/2, implication chain), run on CadicalSolver, ExternalSatSolver(fake_sat, strict DIMACS validation) and ExternalSatSolver(kissat -q) when installed. Every verdict is compared with brute force over the accumulated clauses and that call's assumptions; models must satisfy every clause and assumption by definite values and be queryable for every declared/assumed variable. Non-trivial: >=2 solve calls with a clause added in between and a call whose assumptions flip the verdict; distinct = operation sequence.".into()
     }
     fn assumptions(&self) -> Vec<String> {
         vec!["brute force over <=2^14 assignments".into(), "fake_sat / kissat are healthy backends".into()]
     }
     fn strategy(&self, tier: Tier) -> BoxedStrategy<SatCase> {
         let maxlen = tier.pick(24usize, 60usize);
-        (structured(), vec(op(), 1..=maxlen))
-            .prop_map(|(mut pre, ops)| {
+        (structured(), vec(op(), 1..=maxlen), prop_oneof![5 => Just(1u8), 1 => Just(3u8), 1 => Just(16u8), 1 => Just(63u8), 2 => Just(64u8), 1 => Just(65u8), 1 => Just(128u8)])
+            .prop_map(|(mut pre, ops, stride)| {
                 pre.extend(ops);
                 pre.push(SatOp::Solve(vec![]));
-                SatCase { ops: pre }
+                SatCase { ops: pre, stride }
             })
             .boxed()
     }
